@@ -113,6 +113,7 @@ def run_recipe(recipe, cfg, workdir, monitors=("block", "trace"), expected=None,
             "num_tasks": fp.num_tasks,
             "max_projected_mem": fp.max_projected_mem,
             "ops": sum(1 for _, d in fp.dag.nodes(data=True) if d.get("type") == "op"),
+            "op_names": [d.get("op_name") for _, d in fp.dag.nodes(data=True) if d.get("type") == "op"],
         }
     except Exception as e:
         rec["exc"] = exc_info(e)
